@@ -29,6 +29,8 @@ def _work(chunk):
     for cid, case in chunk:
         try:
             out.append((cid, (R.run_life_case if case.get("life") else R.run_case)(cid, case), None))
+        except R.TooManyHangs:
+            out.append((cid, None, "skipped"))
         except (R.WouldBlock, R.Hang) as e:
             out.append((cid, None, f"{type(e).__name__} escaped"))
         except Exception as e:  # noqa: BLE001
@@ -54,6 +56,9 @@ def _feed(res: C.Result, cases: List[Any]):
     meta: Dict[str, Any] = {}
     bycid = dict(cases)
     for cid, blk, err in done:
+        if blk is None and err == "skipped":       # after repeated hangs in that worker (the hangs themselves are reported)
+            res.extra["skipped_after_repeated_hangs"] = res.extra.get("skipped_after_repeated_hangs", 0) + 1
+            continue
         if blk is None:
             raise C.MachineryError(f"harness failed on case {cid}: {err}")
         lines += blk
